@@ -70,7 +70,15 @@ func (s *TFIDFSearcher) buildIndex() {
 	// Step 2: Build vocabulary index
 	s.vocabulary = make(map[string]int)
 	vocabIndex := 0
-	for word, docCount := range wordCounts {
+	// Assign vocabulary indices in sorted word order (not map order) so that every
+	// floating-point sum below is accumulated in the same order on every load.
+	sortedWords := make([]string, 0, len(wordCounts))
+	for word := range wordCounts {
+		sortedWords = append(sortedWords, word)
+	}
+	sort.Strings(sortedWords)
+	for _, word := range sortedWords {
+		docCount := wordCounts[word]
 		// Include unique terms (docCount >= 1) as they are highly discriminating
 		// Upper bound at 80% to exclude only very common terms
 		maxDocs := len(s.commands) * 8 / 10
@@ -107,8 +115,8 @@ func (s *TFIDFSearcher) buildIndex() {
 		s.commandTF[i] = make(map[int]float64)
 		var norm float64
 
-		for termIdx, count := range termCounts {
-			tf := float64(count) / float64(len(words))
+		for _, termIdx := range sortedKeys(termCounts) {
+			tf := float64(termCounts[termIdx]) / float64(len(words))
 			tfidf := tf * s.idf[termIdx]
 			s.commandTF[i][termIdx] = tfidf
 			norm += tfidf * tfidf
@@ -164,8 +172,8 @@ func (s *TFIDFSearcher) Search(query string, limit int) []TFIDFResult {
 
 	// Calculate query TF-IDF
 	var queryNorm float64
-	for termIdx, count := range queryTermCounts {
-		tf := float64(count) / float64(len(queryTokens))
+	for _, termIdx := range sortedKeys(queryTermCounts) {
+		tf := float64(queryTermCounts[termIdx]) / float64(len(queryTokens))
 		tfidf := tf * s.idf[termIdx]
 		queryVector[termIdx] = tfidf
 		queryNorm += tfidf * tfidf
@@ -176,10 +184,11 @@ func (s *TFIDFSearcher) Search(query string, limit int) []TFIDFResult {
 		return []TFIDFResult{}
 	}
 
-	// Calculate cosine similarity with each command
+	// Calculate cosine similarity with each command (query terms in a fixed order)
+	queryTerms := sortedFloatKeys(queryVector)
 	var results []TFIDFResult
 	for i := range s.commands {
-		similarity := s.cosineSimilarity(queryVector, queryNorm, s.commandTF[i], s.commandNorms[i])
+		similarity := s.cosineSimilarity(queryVector, queryTerms, queryNorm, s.commandTF[i], s.commandNorms[i])
 
 		if similarity > 0.01 { // Minimum similarity threshold
 			results = append(results, TFIDFResult{
@@ -191,7 +200,7 @@ func (s *TFIDFSearcher) Search(query string, limit int) []TFIDFResult {
 	}
 
 	// Sort by similarity (descending)
-	sort.Slice(results, func(i, j int) bool {
+	sort.SliceStable(results, func(i, j int) bool {
 		return results[i].Similarity > results[j].Similarity
 	})
 
@@ -204,20 +213,39 @@ func (s *TFIDFSearcher) Search(query string, limit int) []TFIDFResult {
 }
 
 // cosineSimilarity calculates cosine similarity between query and document vectors
-func (s *TFIDFSearcher) cosineSimilarity(queryVector map[int]float64, queryNorm float64,
+func (s *TFIDFSearcher) cosineSimilarity(queryVector map[int]float64, queryTerms []int, queryNorm float64,
 	docVector map[int]float64, docNorm float64) float64 {
 	if queryNorm == 0 || docNorm == 0 {
 		return 0
 	}
 
 	var dotProduct float64
-	for termIdx, queryTFIDF := range queryVector {
+	for _, termIdx := range queryTerms {
 		if docTFIDF, exists := docVector[termIdx]; exists {
-			dotProduct += queryTFIDF * docTFIDF
+			dotProduct += queryVector[termIdx] * docTFIDF
 		}
 	}
 
 	return dotProduct / (queryNorm * docNorm)
+}
+
+// sortedKeys returns the keys of m in increasing order (deterministic summation order).
+func sortedKeys(m map[int]int) []int {
+	keys := make([]int, 0, len(m))
+	for k := range m {
+		keys = append(keys, k)
+	}
+	sort.Ints(keys)
+	return keys
+}
+
+func sortedFloatKeys(m map[int]float64) []int {
+	keys := make([]int, 0, len(m))
+	for k := range m {
+		keys = append(keys, k)
+	}
+	sort.Ints(keys)
+	return keys
 }
 
 // GetVocabularyStats returns statistics about the built vocabulary
